@@ -177,6 +177,7 @@ func aeOracle(c *Case, req M, resp *Response) []Violation {
 	crits := critInfos(req)
 	mp := asM(req["methodParameters"])
 	spec := specFromReq(req)
+	exactLevels = spec.Fn == "thresholds"
 	levels, ok := refLevels(true, spec, crits)
 	if !ok {
 		return []Violation{viol(c, "C12/accepted-invalid-levels", "request with invalid level parameters %v was answered", spec)}
@@ -224,7 +225,7 @@ func aeOracle(c *Case, req M, resp *Response) []Violation {
 		for cid, tv := range th {
 			ci, known := cinfo[cid]
 			t := asF(tv)
-			if !known || !approx(t, levels[idx][cid]) {
+			if !known || !levelEq(t, levels[idx][cid]) {
 				vs = append(vs, viol(c, "C12/threshold-value", "entry %s reports threshold %s=%v at level %d, the level's threshold is %v", e.Alternative.ID, cid, t, idx, levels[idx][cid]))
 				continue
 			}
@@ -312,6 +313,8 @@ func incLists(cids []string) []levelSpec {
 		}
 		seqs = append(seqs, s)
 	}
+	seqs = append(seqs, []float64{0.5, 1.5, 1.5, 2.5}, []float64{1.5, 1.5})  // a level repeated: still a level of its own
+	seqs = append(seqs, []float64{0.5000000049, 1.5000000051, 2.4999999949}) // more decimals than any rounding keeps
 	var out []levelSpec
 	// per-criterion increasing sequences of equal length (full product for 2 criteria, diagonal + shifted for 3)
 	for _, a := range seqs {
@@ -387,6 +390,9 @@ func aeEnumerate(s *Shard, prop string, fn func(c *Case)) {
 		cids := critIDs(g.m)
 		specs := append(incLists(cids), genSpecs(true)...)
 		typeSets := [][]string{{"", "gain"}, {"gain", "cost"}}
+		if g.n <= 2 {
+			typeSets = append(typeSets, []string{"cost", "gain"}) // a gain criterion listed after a cost criterion
+		}
 		ws := [][]float64{{2, 1}, {1, 2}, {1, 1}}
 		if g.m == 3 {
 			typeSets = [][]string{{"gain", "gain", "gain"}, {"cost", "gain", "cost"}}
@@ -427,6 +433,10 @@ func aeEnumerate(s *Shard, prop string, fn func(c *Case)) {
 							}
 						}
 						fn(&Case{Prop: prop, Kind: "aspect", Req: aeRequest(cfg)})
+						if cfg.Extra && g.n <= 3 {
+							// the never-considered alternative that widens the observed range has an id that sorts FIRST
+							fn(&Case{Prop: prop, Kind: "aspect", Req: renameIDs(aeRequest(cfg), map[string]string{"zz": "0a"})})
+						}
 						if g.n >= 2 && g.n <= 3 && g.m == 2 && si%2 == 0 {
 							// the declared scale is narrower than the values: alternatives beyond its bad end
 							nc := cfg
